@@ -202,7 +202,7 @@ func ruleR9() *Rule {
 						if call, ok := cond.(*ssa.Call); ok && decHelper != nil && ssa.CallInstruction(call) == decHelperCall {
 							// the answer of the helper that decrements: its (single) return value is the test
 							if rets := returnsOf(decHelper); len(rets) == 1 && len(rets[0].Results) == 1 {
-								cond, viaHelper = rets[0].Results[0], true
+								cond, viaHelper = resolveLoad(returnedValue(rets[0], 0)), true
 							}
 						}
 						bo, ok := cond.(*ssa.BinOp)
@@ -287,8 +287,19 @@ func ruleR9() *Rule {
 				c.check(guardOK, "guard-1-to-0", c.pos(site), "the release routine runs exactly when the decremented count is 0 (truth table {0: release, 1: keep, 2: keep})",
 					"the call of "+rname+" is not dominated by a guard on the decremented Segment.refs with that truth table: "+guardDesc, "call: "+describeInstr(p, site))
 				// under the mutex
+				// The decrement and the test that decides the release are one critical section of Segment.m
+				// (R2 judges every access to refs); the release itself may run with the mutex held or — since
+				// exactly one caller can see zero and the count never comes back — after it was dropped.
 				lockHeld := heldAtOrAtCallers(p, dec, site, "Segment.m", 0)
-				c.check(lockHeld, "release-under-mutex", c.pos(site), "the release routine is called with Segment.m held", "Segment.m is not held on every path to the call")
+				if !lockHeld && decHelper != nil {
+					// the helper that decrements and tests takes the mutex itself and holds it over both
+					hfi := false
+					if decStore != nil {
+						hfi = heldAtOrAtCallers(p, decHelper, decStore, "Segment.m", 0)
+					}
+					lockHeld = hfi
+				}
+				c.check(lockHeld, "release-under-mutex", c.pos(site), "the count is decremented and tested under Segment.m (the release runs with it held, or right after the critical section that saw zero)", "neither the call of the release routine nor the decrement-and-test that decides it happens with Segment.m held")
 				// the caches of an mmap-ed segment are cleared only when the last reference goes:
 				// "unguarded clearers" = functions that clear a cache on some path that is not behind the
 				// 1->0 guard of the decrementing function; apart from the in-memory Close and the
